@@ -474,13 +474,27 @@ def _e2e(which="all"):
         tr = os.path.join(d, "trunc.records")
         # cut inside the last record frame: the first two records are intact
         open(tr, "wb").write(raw[: len(raw) - 5])
+        # the last record frame's msgpack ext type byte is damaged: the decoder fails with an exception of no particular class
+        be = os.path.join(d, "badext.records")
+        pos = 0
+        last = None
+        while pos + 4 <= len(raw):
+            (ln,) = __import__("struct").unpack(">I", raw[pos : pos + 4])
+            last = (pos + 4, ln)
+            pos += 4 + ln
+        body = bytearray(raw)
+        start, ln = last
+        hdr = {0xC7: 2, 0xC8: 3, 0xC9: 5}.get(body[start])
+        if hdr is not None and body[start + hdr] == 14:
+            body[start + hdr] = 15
+        open(be, "wb").write(bytes(body))
         gb = os.path.join(d, "garbage.records")
         open(gb, "wb").write(b"\x00\x01garbage that is not a record stream" * 3)
         em = os.path.join(d, "empty.records")
         open(em, "wb").write(b"")
         missing = os.path.join(d, "missing.records")
-        SRC = {"g1": (g1, r1, 4, "ok"), "g2": (g2, r2, 4, "ok"), "bz": (gz2, rz2, 2, "ok"), "trunc": (tr, r3, 2, "ioerr"), "garbage": (gb, [], 0, "open_exc"), "empty": (em, [], 0, "open_exc"), "missing": (missing, [], 0, "open_ioerr")}
-        placements = [("g1",), ("g1", "g2"), ("missing", "g1"), ("g1", "garbage", "g2"), ("trunc", "g2"), ("g1", "trunc", "missing", "g2"), ("empty", "g2", "garbage"), ("garbage",), ("missing", "trunc"), ("bz", "g1"), ("trunc", "bz", "g2")]
+        SRC = {"g1": (g1, r1, 4, "ok"), "g2": (g2, r2, 4, "ok"), "bz": (gz2, rz2, 2, "ok"), "trunc": (tr, r3, 2, "ioerr"), "badext": (be, r3, 2, "exc"), "garbage": (gb, [], 0, "open_exc"), "empty": (em, [], 0, "open_exc"), "missing": (missing, [], 0, "open_ioerr")}
+        placements = [("g1",), ("g1", "g2"), ("missing", "g1"), ("g1", "garbage", "g2"), ("trunc", "g2"), ("g1", "trunc", "missing", "g2"), ("empty", "g2", "garbage"), ("garbage",), ("missing", "trunc"), ("bz", "g1"), ("trunc", "bz", "g2"), ("badext", "g1"), ("g1", "badext", "g2")]
         option_sets = [
             {},
             {"skip": 1, "count": 2},
